@@ -9,7 +9,7 @@ Hypothesis tmp_ne : tmp <> target.
    is completely on disk, is not open for writing, and whose content satisfies P (None = the name does not exist) *)
 Definition safe (P : option (list N) -> Prop) (s : fs) : Prop :=
   forall j, match dir_after (fs_ddir s) (take j (fs_log s)) !! target with
-            | Some i => exists b, fs_files s !! i = Some (mkFile b []) /\
+            | Some i => exists b p, fs_files s !! i = Some (mkFile b [] p) /\
                                   (forall h, handle (fs_open s) h <> Some i) /\ P (Some b)
             | None => P None
             end.
@@ -17,6 +17,7 @@ Definition safe (P : option (list N) -> Prop) (s : fs) : Prop :=
 Definition untouched (o : fsop) : Prop :=
   match o with
   | Create n => n <> target
+  | OpenExisting _ => False   (* not an operation of the protocol: the theorems are about fresh temp files *)
   | Rename a b => a <> target /\ b <> target
   | _ => True
   end.
@@ -62,42 +63,47 @@ Proof.
   intros Hne Hs. unfold upd_file. destruct (fs_files s !! i) as [f|] eqn:Ef; [|exact Hs].
   intros j. simpl. specialize (Hs j). specialize (Hne j).
   destruct (dir_after (fs_ddir s) (take j (fs_log s)) !! target) as [i'|]; [|exact Hs].
-  destruct Hs as (b & Hf & Ho & HP). exists b. split; [|split; assumption].
+  destruct Hs as (b & p & Hf & Ho & HP). exists b, p. split; [|split; assumption].
   rewrite list_lookup_insert_ne by congruence. exact Hf.
+Qed.
+
+Lemma step_create_safe P s n : n <> target -> safe P s -> safe P (step_create s n).
+Proof.
+  intros Hu Hs j. unfold step_create. simpl.
+  destruct (take_snoc_cases (fs_log s) (DBind n (length (fs_files s))) j) as [E|[E El]]; rewrite E.
+  + specialize (Hs j). destruct (dir_after (fs_ddir s) (take j (fs_log s)) !! target) as [i|]; [|exact Hs].
+    destruct Hs as (b & p & Hf & Ho & HP). exists b, p. split; [|split]; [| |exact HP].
+    * rewrite lookup_app_l; [exact Hf|]. apply lookup_lt_Some in Hf. exact Hf.
+    * intros h. apply lookup_lt_Some in Hf. destruct (String.eqb n h); [|apply Ho].
+      intros Heq. inversion Heq. lia.
+  + rewrite dir_after_snoc, apply_untouched_bind by exact Hu.
+    specialize (Hs (length (fs_log s))). rewrite El in Hs.
+    destruct (dir_after (fs_ddir s) (fs_log s) !! target) as [i|]; [|exact Hs].
+    destruct Hs as (b & p & Hf & Ho & HP). exists b, p. split; [|split]; [| |exact HP].
+    * rewrite lookup_app_l; [exact Hf|]. apply lookup_lt_Some in Hf. exact Hf.
+    * intros h. apply lookup_lt_Some in Hf. destruct (String.eqb n h); [|apply Ho].
+      intros Heq. inversion Heq. lia.
 Qed.
 
 Lemma step_safe P s o : untouched o -> safe P s -> safe P (step s o).
 Proof.
-  intros Hu Hs. destruct o as [n|h b|h|h|a b]; simpl in *.
-  - (* Create *)
-    intros j. simpl.
-    destruct (take_snoc_cases (fs_log s) (DBind n (length (fs_files s))) j) as [E|[E El]]; rewrite E.
-    + specialize (Hs j). destruct (dir_after (fs_ddir s) (take j (fs_log s)) !! target) as [i|]; [|exact Hs].
-      destruct Hs as (b & Hf & Ho & HP). exists b. split; [|split]; [| |exact HP].
-      * rewrite lookup_app_l; [exact Hf|]. apply lookup_lt_Some in Hf. exact Hf.
-      * intros h. apply lookup_lt_Some in Hf. destruct (String.eqb n h); [|apply Ho].
-        intros Heq. inversion Heq. lia.
-    + rewrite dir_after_snoc, apply_untouched_bind by exact Hu.
-      specialize (Hs (length (fs_log s))). rewrite El in Hs.
-      destruct (dir_after (fs_ddir s) (fs_log s) !! target) as [i|]; [|exact Hs].
-      destruct Hs as (b & Hf & Ho & HP). exists b. split; [|split]; [| |exact HP].
-      * rewrite lookup_app_l; [exact Hf|]. apply lookup_lt_Some in Hf. exact Hf.
-      * intros h. apply lookup_lt_Some in Hf. destruct (String.eqb n h); [|apply Ho].
-        intros Heq. inversion Heq. lia.
+  intros Hu Hs. destruct o as [n|n|h b|h|h|a b]; simpl in *.
+  - (* Create *) apply step_create_safe; assumption.
+  - (* OpenExisting: excluded *) contradiction.
   - (* Write *)
     destruct (handle (fs_open s) h) as [i|] eqn:Eh; [|exact Hs].
     apply upd_file_safe; [|exact Hs]. intros j. specialize (Hs j).
     destruct (dir_after (fs_ddir s) (take j (fs_log s)) !! target) as [i'|]; [|exact I].
-    destruct Hs as (b0 & _ & Ho & _). intros ->. exact (Ho h Eh).
+    destruct Hs as (b0 & p0 & _ & Ho & _). intros ->. exact (Ho h Eh).
   - (* Fsync *)
     destruct (handle (fs_open s) h) as [i|] eqn:Eh; [|exact Hs].
     apply upd_file_safe; [|exact Hs]. intros j. specialize (Hs j).
     destruct (dir_after (fs_ddir s) (take j (fs_log s)) !! target) as [i'|]; [|exact I].
-    destruct Hs as (b0 & _ & Ho & _). intros ->. exact (Ho h Eh).
+    destruct Hs as (b0 & p0 & _ & Ho & _). intros ->. exact (Ho h Eh).
   - (* Close *)
     intros j. simpl. specialize (Hs j).
     destruct (dir_after (fs_ddir s) (take j (fs_log s)) !! target) as [i|]; [|exact Hs].
-    destruct Hs as (b & Hf & Ho & HP). exists b. split; [exact Hf|split; [|exact HP]].
+    destruct Hs as (b & p & Hf & Ho & HP). exists b, p. split; [exact Hf|split; [|exact HP]].
     intros h'. rewrite handle_filter. destruct (String.eqb h h'); [discriminate|apply Ho].
   - (* Rename not involving target *)
     destruct Hu as [Ha Hb]. intros j. simpl.
@@ -115,25 +121,21 @@ Qed.
 
 (* a crash, whatever the adversary keeps, leaves target with a content satisfying P, and the recovered file system
    is again safe (with everything on disk and nothing open) *)
-Lemma crash_file_synced k b : crash_file k (mkFile b []) = mkFile b [].
-Proof. unfold crash_file. simpl. rewrite take_nil, app_nil_r. reflexivity. Qed.
+Lemma crash_file_synced k b p : crash_file k (mkFile b [] p) = mkFile b [] 0.
+Proof. reflexivity. Qed.
 
 Lemma crash_safe P c s : safe P s -> P (content (crash c s) target) /\ safe P (crash c s) /\
                                     fs_log (crash c s) = [] /\ fs_open (crash c s) = [].
 Proof.
   intros Hs. specialize (Hs (ch_dir c)).
-  assert (Hlook : forall i b, fs_files s !! i = Some (mkFile b []) ->
-            fs_files (crash c s) !! i = Some (mkFile b [])).
-  { intros i b Hf. simpl. rewrite list_lookup_imap, Hf. simpl. rewrite crash_file_synced. reflexivity. }
   split; [|split; [|split; reflexivity]].
   - unfold content, cur_dir. simpl.
     destruct (dir_after (fs_ddir s) (take (ch_dir c) (fs_log s)) !! target) as [i|]; [|exact Hs].
-    destruct Hs as (b & Hf & _ & HP). rewrite list_lookup_imap, Hf. simpl.
-    rewrite crash_file_synced. unfold file_bytes. simpl. rewrite app_nil_r. exact HP.
+    destruct Hs as (b & p & Hf & _ & HP). rewrite list_lookup_imap, Hf. simpl. exact HP.
   - intros j. simpl. rewrite take_nil. simpl.
     destruct (dir_after (fs_ddir s) (take (ch_dir c) (fs_log s)) !! target) as [i|]; [|exact Hs].
-    destruct Hs as (b & Hf & _ & HP). exists b. split; [|split; [|exact HP]].
-    + rewrite list_lookup_imap, Hf. simpl. rewrite crash_file_synced. reflexivity.
+    destruct Hs as (b & p & Hf & _ & HP). exists b, 0%nat. split; [|split; [|exact HP]].
+    + rewrite list_lookup_imap, Hf. reflexivity.
     + intros h. discriminate.
 Qed.
 
@@ -141,21 +143,44 @@ Lemma safe_weaken (P Q : option (list N) -> Prop) s : (forall x, P x -> Q x) -> 
 Proof.
   intros HPQ Hs j. specialize (Hs j).
   destruct (dir_after (fs_ddir s) (take j (fs_log s)) !! target) as [i|]; [|apply HPQ; exact Hs].
-  destruct Hs as (b & Hf & Ho & HP). exists b. auto.
+  destruct Hs as (b & p & Hf & Ho & HP). exists b, p. auto.
 Qed.
 
 (* ---- the explicit state along the protocol ---- *)
 Lemma insert_middle {A} (l1 : list A) x y : <[length l1 := y]> (l1 ++ [x]) = l1 ++ [y].
 Proof. rewrite insert_app_r_alt by lia. rewrite Nat.sub_diag. reflexivity. Qed.
-Lemma run_writes files0 dd lg dur cs acc :
-  run (map (Write tmp) cs) (mkFs (files0 ++ [mkFile dur acc]) dd lg [(tmp, length files0)])
-  = mkFs (files0 ++ [mkFile dur (acc ++ cs)]) dd lg [(tmp, length files0)].
+
+(* sequential writes starting at position p *)
+Fixpoint seq_writes (p : nat) (cs : list (list N)) : list (nat * list N) :=
+  match cs with
+  | [] => []
+  | c :: r => (p, c) :: seq_writes (p + length c) r
+  end.
+
+Lemma overwrite_end d b : overwrite d (length d) b = d ++ b.
 Proof.
-  revert acc. induction cs as [|c cs IH]; intros acc; simpl.
+  unfold overwrite. rewrite take_ge by lia. rewrite drop_ge by lia. rewrite app_nil_r. reflexivity.
+Qed.
+
+Lemma apply_seq_writes cs : forall d, apply_writes d (seq_writes (length d) cs) = d ++ concat cs.
+Proof.
+  induction cs as [|c cs IH]; intros d; simpl.
   - rewrite app_nil_r. reflexivity.
+  - unfold apply_writes in *. simpl. rewrite overwrite_end.
+    replace (length d + length c)%nat with (length (d ++ c)) by (rewrite app_length; reflexivity).
+    rewrite IH. rewrite <- app_assoc. reflexivity.
+Qed.
+
+Lemma run_writes files0 dd lg cs : forall ws p,
+  run (map (Write tmp) cs) (mkFs (files0 ++ [mkFile [] ws p]) dd lg [(tmp, length files0)])
+  = mkFs (files0 ++ [mkFile [] (ws ++ seq_writes p cs) (p + length (concat cs))]) dd lg [(tmp, length files0)].
+Proof.
+  induction cs as [|c cs IH]; intros ws p; simpl.
+  - rewrite app_nil_r, Nat.add_0_r. reflexivity.
   - rewrite String.eqb_refl. unfold upd_file. simpl.
     rewrite list_lookup_middle by reflexivity. simpl.
-    rewrite insert_middle. rewrite IH. rewrite <- app_assoc. reflexivity.
+    rewrite insert_middle. rewrite IH. rewrite <- app_assoc. simpl.
+    rewrite app_length, Nat.add_assoc. reflexivity.
 Qed.
 
 Lemma run_app ops1 ops2 s : run (ops1 ++ ops2) s = run ops2 (run ops1 s).
@@ -163,14 +188,17 @@ Proof. unfold run. apply foldl_app. Qed.
 
 Lemma run_full files0 dd lg cs :
   run (snapshot_ops_chunks tmp target cs) (mkFs files0 dd lg [])
-  = mkFs (files0 ++ [mkFile (concat cs) []]) dd ((lg ++ [DBind tmp (length files0)]) ++ [DRename tmp target]) [].
+  = mkFs (files0 ++ [mkFile (concat cs) [] (length (concat cs))]) dd
+         ((lg ++ [DBind tmp (length files0)]) ++ [DRename tmp target]) [].
 Proof.
-  unfold snapshot_ops_chunks. cbn [run foldl step]. simpl fs_files. simpl fs_log. simpl fs_open. simpl fs_ddir.
+  unfold snapshot_ops_chunks. cbn [run foldl step]. unfold step_create. simpl fs_files. simpl fs_log. simpl fs_open. simpl fs_ddir.
   change (foldl step ?s ?l) with (run l s). rewrite run_app, run_writes. simpl.
   rewrite String.eqb_refl. unfold upd_file. simpl.
   rewrite list_lookup_middle by reflexivity. simpl.
   rewrite insert_middle. simpl.
-  rewrite filter_cons. simpl. rewrite String.eqb_refl. simpl. rewrite filter_nil. reflexivity.
+  rewrite filter_cons. simpl. rewrite String.eqb_refl. simpl. rewrite filter_nil.
+  unfold file_bytes. cbn [f_durable f_volatile f_pos app].
+  pose proof (apply_seq_writes cs []) as E. simpl in E. rewrite E. reflexivity.
 Qed.
 
 Lemma untouched_prefix cs : Forall untouched (Create tmp :: map (Write tmp) cs ++ [Fsync tmp; Close tmp]).
@@ -192,23 +220,23 @@ Proof.
   intros Hs. rewrite run_full. intros j. simpl.
   destruct (take_snoc_cases (lg ++ [DBind tmp (length files0)]) (DRename tmp target) j) as [E|[E _]]; rewrite E.
   - (* the rename is rolled back: as after Create *)
-    assert (Hs1 : safe P (mkFs (files0 ++ [mkFile (concat cs) []]) dd (lg ++ [DBind tmp (length files0)]) [])).
+    assert (Hs1 : safe P (mkFs (files0 ++ [mkFile (concat cs) [] (length (concat cs))]) dd (lg ++ [DBind tmp (length files0)]) [])).
     { intros j'. simpl.
       destruct (take_snoc_cases lg (DBind tmp (length files0)) j') as [E'|[E' El]]; rewrite E'.
       - specialize (Hs j'). simpl in Hs. destruct (dir_after dd (take j' lg) !! target) as [i|]; [|exact Hs].
-        destruct Hs as (b & Hf & _ & HP). exists b. split; [|split; [intros h; discriminate|exact HP]].
+        destruct Hs as (b & p & Hf & _ & HP). exists b, p. split; [|split; [intros h; discriminate|exact HP]].
         rewrite lookup_app_l; [exact Hf|]. apply lookup_lt_Some in Hf. exact Hf.
       - rewrite dir_after_snoc, apply_untouched_bind by exact tmp_ne.
         specialize (Hs (length lg)). simpl in Hs. rewrite El in Hs.
         destruct (dir_after dd lg !! target) as [i|]; [|exact Hs].
-        destruct Hs as (b & Hf & _ & HP). exists b. split; [|split; [intros h; discriminate|exact HP]].
+        destruct Hs as (b & p & Hf & _ & HP). exists b, p. split; [|split; [intros h; discriminate|exact HP]].
         rewrite lookup_app_l; [exact Hf|]. apply lookup_lt_Some in Hf. exact Hf. }
     specialize (Hs1 j). simpl in Hs1.
     destruct (dir_after dd (take j (lg ++ [DBind tmp (length files0)])) !! target) as [i|]; [|left; exact Hs1].
-    destruct Hs1 as (b & Hf & Ho & HP). exists b. split; [exact Hf|split; [exact Ho|left; exact HP]].
+    destruct Hs1 as (b & p & Hf & Ho & HP). exists b, p. split; [exact Hf|split; [exact Ho|left; exact HP]].
   - (* the rename reached the disk *)
     rewrite !dir_after_snoc. simpl. rewrite lookup_insert. rewrite lookup_insert.
-    exists (concat cs). split; [|split; [intros h; discriminate|right; reflexivity]].
+    exists (concat cs), (length (concat cs)). split; [|split; [intros h; discriminate|right; reflexivity]].
     apply list_lookup_middle. reflexivity.
 Qed.
 
@@ -244,7 +272,7 @@ End Atomic.
 Definition stable (s : fs) (target : string) : Prop :=
   fs_log s = [] /\ fs_open s = [] /\
   match fs_ddir s !! target with
-  | Some i => exists b, fs_files s !! i = Some (mkFile b [])
+  | Some i => exists b p, fs_files s !! i = Some (mkFile b [] p)
   | None => True
   end.
 
@@ -254,14 +282,14 @@ Proof.
   intros (Hl & Ho & Ht) j. rewrite Hl, take_nil. simpl.
   unfold content, cur_dir. rewrite Hl. simpl.
   destruct (fs_ddir s !! target) as [i|]; [|reflexivity].
-  destruct Ht as (b & Hf). exists b. rewrite Hf, Ho. split; [reflexivity|split; [intros h; discriminate|]].
-  unfold file_bytes. simpl. rewrite app_nil_r. reflexivity.
+  destruct Ht as (b & p & Hf). exists b, p. rewrite Hf, Ho. split; [reflexivity|split; [intros h; discriminate|]].
+  reflexivity.
 Qed.
 
 Lemma safe_stable target P s : safe target P s -> fs_log s = [] -> fs_open s = [] -> stable s target.
 Proof.
   intros Hs Hl Ho. split; [exact Hl|split; [exact Ho|]]. specialize (Hs 0%nat). rewrite take_0 in Hs. simpl in Hs.
-  destruct (fs_ddir s !! target) as [i|]; [|exact I]. destruct Hs as (b & Hf & _). exists b. exact Hf.
+  destruct (fs_ddir s !! target) as [i|]; [|exact I]. destruct Hs as (b & p & Hf & _). exists b, p. exact Hf.
 Qed.
 
 Lemma snapshot_atomic_chunks target tmp d0 cs k c :
@@ -307,7 +335,7 @@ Proof.
   unfold snapshot_ops. rewrite run_full. unfold content, cur_dir. simpl.
   rewrite !dir_after_snoc. simpl. rewrite lookup_insert. rewrite lookup_insert.
   rewrite list_lookup_middle by reflexivity. unfold file_bytes. simpl.
-  rewrite concat_code_chunks, app_nil_r. reflexivity.
+  rewrite concat_code_chunks. reflexivity.
 Qed.
 
 (* ---- histories: any number of snapshots, each either completed or cut short by a crash (with recovery), with NO
